@@ -119,7 +119,6 @@ private:
       variable_vector_t vars{x};
       absval = merge(vars);
     }
-    assert(absval);
     return absval;
   }
 
@@ -139,10 +138,18 @@ private:
 	absval = merge(vars);
       } 
     }
-    assert(absval);
     return absval;
   }
   
+  // The abstract value is the conjunction of its packs: it is bottom
+  // as soon as one pack is (absval == null: merging the packs already
+  // gave bottom).
+  void normalize_bottom(const std::shared_ptr<base_domain_t> &absval) {
+    if (!absval || absval->is_bottom()) {
+      set_to_bottom();
+    }
+  }
+
   numerical_packing_domain(union_find_domain_t &&packs)
       : m_packs(std::move(packs)) {}
 
@@ -357,10 +364,8 @@ public:
       absval = merge(vars);
       if (absval) {
         absval->assign(x, e);
-      } else {
-	CRAB_ERROR(domain_name(), "::assign produced bottom!");
       }
-      
+      normalize_bottom(absval);
     }
   }
 
@@ -375,9 +380,8 @@ public:
       absval = merge(vars);
       if (absval) {
         absval->weak_assign(x, e);
-      } else {
-	CRAB_ERROR(domain_name(), "::weak_assign produced bottom!");
       }
+      normalize_bottom(absval);
     }
   }
   
@@ -385,22 +389,22 @@ public:
   void apply(arith_operation_t op, const variable_t &x, const variable_t &y,
              number_t z) override {
     if (!is_bottom()) {
-      if (std::shared_ptr<base_domain_t> absval = apply_packs(x, y)) {
-	absval->apply(op, x, y, z);
-      } else {
-	CRAB_ERROR(domain_name(), "::apply 1 produced bottom!");
+      std::shared_ptr<base_domain_t> absval = apply_packs(x, y);
+      if (absval) {
+        absval->apply(op, x, y, z);
       }
+      normalize_bottom(absval);
     }
   }
 
   void apply(arith_operation_t op, const variable_t &x, const variable_t &y,
              const variable_t &z) override {
     if (!is_bottom()) {
-      if (std::shared_ptr<base_domain_t> absval = apply_packs(x, y, z)) {
-	absval->apply(op, x, y, z);
-      } else {
-	CRAB_ERROR(domain_name(), "::apply 2 produced bottom!");
+      std::shared_ptr<base_domain_t> absval = apply_packs(x, y, z);
+      if (absval) {
+        absval->apply(op, x, y, z);
       }
+      normalize_bottom(absval);
     }
   }
 
@@ -409,33 +413,33 @@ public:
     if (!is_bottom() && (src != dst)) {
       m_packs.forget(dst);
       variable_vector_t vars{src, dst};
-      if (std::shared_ptr<base_domain_t> absval = merge(vars)) {
+      std::shared_ptr<base_domain_t> absval = merge(vars);
+      if (absval) {
         absval->apply(op, dst, src);
-      } else {
-	CRAB_ERROR(domain_name(), "::apply 3 produced bottom!");
       }
+      normalize_bottom(absval);
     }
   }
 
   void apply(bitwise_operation_t op, const variable_t &x, const variable_t &y,
              number_t k) override {
     if (!is_bottom()) {
-      if (std::shared_ptr<base_domain_t> absval = apply_packs(x, y)) {
+      std::shared_ptr<base_domain_t> absval = apply_packs(x, y);
+      if (absval) {
         absval->apply(op, x, y, k);
-      } else {
-	CRAB_ERROR(domain_name(), "::apply 4 produced bottom!");
       }
+      normalize_bottom(absval);
     }
   }
 
   void apply(bitwise_operation_t op, const variable_t &x, const variable_t &y,
              const variable_t &z) override {
     if (!is_bottom()) {
-      if (std::shared_ptr<base_domain_t> absval = apply_packs(x, y, z)) {
+      std::shared_ptr<base_domain_t> absval = apply_packs(x, y, z);
+      if (absval) {
         absval->apply(op, x, y, z);
-      } else {
-	CRAB_ERROR(domain_name(), "::apply 5 produced bottom!");
       }
+      normalize_bottom(absval);
     }
   }
   
@@ -457,9 +461,11 @@ public:
       vars.insert(vars.end(), e1.variables_begin(), e1.variables_end());
       vars.insert(vars.end(), e2.variables_begin(), e2.variables_end());
 
-      if (std::shared_ptr<base_domain_t> absval = merge(vars)) {
+      std::shared_ptr<base_domain_t> absval = merge(vars);
+      if (absval) {
         absval->select(lhs, cond, e1, e2);
       }
+      normalize_bottom(absval);
     }
   }
 
